@@ -64,6 +64,7 @@ func guardOf(env *Env, x ast.Expr) string {
 				env.fail(y, "unknown type in type assertion")
 			}
 			env.vc.declIface()
+			env.vc.declIface()
 			return eq(app("itag", base.term()), env.vc.typeTag(t))
 		default:
 			return ""
@@ -795,6 +796,7 @@ func (fr *Frame) execInvoke(c *ssa.CallCommon, pos token.Pos, st *State) Val {
 			if m == nil {
 				panic(contractError("type " + tn + " has no method " + c.Method.Name()))
 			}
+			vc.declIface()
 			cond := eq(app("itag", box), vc.typeTag(t))
 			conds = append(conds, cond)
 			bst := st.clone()
